@@ -11,6 +11,15 @@ def fmt_addr(a):
     return f"i{a - IMEM:02X}" if a >= IMEM else f"{a:05X}"
 
 
+# README PRE table (rows: first operand byte, columns: second)  ->  pre byte: (first mode, second mode) in tok's spelling
+README_PRE = {
+    0x32: ("n", "n"), 0x30: ("n", "bp+n"), 0x33: ("n", "py+n"), 0x31: ("n", "bp+py"),
+    0x22: ("bp+n", "n"), 0x23: ("bp+n", "py+n"), 0x21: ("bp+n", "bp+py"),
+    0x36: ("px+n", "n"), 0x34: ("px+n", "bp+n"), 0x37: ("px+n", "py+n"), 0x35: ("px+n", "bp+py"),
+    0x26: ("bp+px", "n"), 0x24: ("bp+px", "bp+n"), 0x27: ("bp+px", "py+n"), 0x25: ("bp+px", "bp+py"),
+}
+
+
 def judge(case, obs):
     """-> dict(unjudged, mn, ops, c03=[(clause, fields, detail)], c04=[...], ref)"""
     out = {"unjudged": None, "c03": [], "c04": [], "mn": None, "ops": None, "ref": None}
@@ -37,6 +46,21 @@ def judge(case, obs):
     if ref.unjudged:
         out["unjudged"] = ref.unjudged
         return out
+
+    # ---------------- C04: the PRE byte selects the documented addressing modes ----------------
+    # README "Internal RAM Addressing Prefix Byte Table": rows = calculation of the FIRST operand byte, columns = of the
+    # SECOND.  Decided only where the table decides: two internal-memory operand bytes in the instruction.
+    preb = case.get("preb")
+    if preb in README_PRE:
+        modes = []
+        for d in ops:
+            if d["k"] == "imem":
+                modes.append(d["mode"])
+            elif d["k"] == "emem_imem":
+                modes.append(d["imem"]["mode"])
+        if len(modes) == 2 and tuple(modes) != README_PRE[preb]:
+            out["c04"].append(("pre_modes", ["addressing_modes"], {"pre": f"{preb:02X}", "rendered": modes,
+                                                                 "readme_table": list(README_PRE[preb])}))
 
     # ---------------- C03: locations -------------------------------------------------------
     w_obs = {a for a, _ in obs["writes"]}
